@@ -73,16 +73,18 @@ def run(ctx):
 
     jobs = []
     if quick:
-        jobs += [(mc, ("all", "MemModel_mc.cfg", 4)),
-                 (gen, ("q", "MemModelGen_q.cfg", 2)),
-                 (gen, ("ns", "MemModelGen_ns.cfg", 4)),
-                 (gen, ("two", "MemModelGen_two.cfg", 6, ("-max", "6"))),
-                 (gen, ("walks", "MemModelGen_sim.cfg", 4, (), ["-seed", seed])),
+        # the generator runs on the ns / two instances also check the invariants and action
+        # properties of MemModel (same graph); the mixed instance MemModel_mc.cfg runs in thorough
+        jobs += [(gen, ("two", "MemModelGen_two.cfg", 6, ("-max", "6"))),
+                 (gen, ("ns", "MemModelGen_ns.cfg", 3)),
+                 (gen, ("q", "MemModelGen_q.cfg", 1)),
+                 (gen, ("walks", "MemModelGen_sim.cfg", 2, (), ["-seed", seed])),
                  (rnd, ("random", 40, 40))]
-        pool = 6
+        pool = 5
     else:
         jobs += [(gen, ("msg", "MemModelGen_msg.cfg", 8)),
                  (gen, ("ns", "MemModelGen_ns_thorough.cfg", 6, ("-max", "40"))),
+                 (mc, ("all-small", "MemModel_mc.cfg", 4)),
                  (mc, ("all", "MemModel_mc_thorough.cfg", 6)),
                  (gen, ("two", "MemModelGen_two.cfg", 5)),
                  (gen, ("q", "MemModelGen_q.cfg", 2)),
